@@ -422,6 +422,9 @@ _amend("C10", "text", "(R10.1-R10.19,", "(R10.1-R10.21,")
 _amend("C10", "text", "Decides nineteen structural clauses", "Decides twenty-one structural clauses")
 _amend("C11", "text", "(R11.1-R11.11 with R11.9a-d,", "(R11.1-R11.12 with R11.9a-d,")
 _amend("C17", "text", "(no borrowing from a related name).", "(no borrowing from a related name); no write goes through bytes that belong to a package-level table (R17.tablestate = R13.2, SSA).")
+_amend("C01", "text", "(R01.1-R01.41;", "(R01.1-R01.44;")
+_amend("C01", "text", "Decides forty-one structural", "Decides forty-four structural")
+_amend("C09", "text", "(R09.1, R09.3-R09.23, DESIGN.md §4 C09;", "(R09.1, R09.3-R09.25, DESIGN.md §4 C09;")
 
 if __name__ == "__main__":
     main()
